@@ -148,6 +148,8 @@ def open_state(cls_name: str, state: Dict[str, bytes], root: str, want_view: boo
 def newest_abs(state: Dict[str, bytes]) -> Dict[str, Any]:
     """Harness-side abstraction of the newest container of a state (independent reader)."""
     names = container_names(state)
+    if not names:
+        return {"ub": "absent", "dig": None, "mf": None, "parsed": None}
     n = names[-1]
     b = state[n]
     p = reclib.parse_ublock(b[:UB])
